@@ -193,6 +193,21 @@ namespace {
          for (auto& b : lex.decompose(clex.static_specifier() | clex.inline_specifier())) (void)b.logogram().what().size();
          for (auto& b : lex.decompose(clex.const_qualifier() | clex.volatile_qualifier())) (void)b.logogram().what().size();
       }
+      else if (kind == "deep-print") {
+         // printing at an indentation far beyond anything a fixed-size helper could hold
+         impl::Lexicon lex;
+         impl::Translation_unit u { lex };
+         std::vector<impl::Block*> blocks;
+         const ipr::Region* r = u.global_region();
+         for (int k = 0; k < 40; ++k) { blocks.push_back(lex.make_block(*r)); r = &blocks.back()->lexical_region; }
+         blocks.back()->add_stmt(*lex.make_break());
+         for (std::size_t k = blocks.size() - 1; k > 0; --k) blocks[k - 1]->add_stmt(*blocks[k]);
+         std::ostringstream os;
+         ipr::Printer pp { lex, os };
+         pp << ipr::xpr_stmt(*blocks.front());
+         pp.indent(5000);
+         pp << ipr::xpr_stmt(*blocks.back());
+      }
       else if (kind == "two-lexicons") {
          impl::Lexicon a;
          {
@@ -214,7 +229,7 @@ namespace {
       for (int k = 2; k + 1 < argc; k += 2) if (std::string(argv[k]) == "--seed") seed = std::stoul(argv[k + 1]);
       static ledger::State state;
       ledger::st = &state;
-      for (std::string kind : { "empty", "unit", "names", "types", "scopes", "regions", "strings", "zoo+print", "two-lexicons", "constants" }) {
+      for (std::string kind : { "empty", "unit", "names", "types", "scopes", "regions", "strings", "zoo+print", "two-lexicons", "constants", "deep-print" }) {
          history(kind, seed);                                       // warm-up: lazy initialisation of the runtime
          for (int run = 2; run <= 3; ++run) {
             ledger::inside = true;
